@@ -17,7 +17,7 @@
    C15_pv_sum was false, witness in AccountingFacts.pv_before_fix_refuted
    (request -1000 W, bounds -300/-600, both calls ok: 0 + 0 + (-100) <> -1000). *)
 From Coq Require Import Permutation Lia Lqa.
-From Verif Require Import model.Accounting proofs.AccountingFacts.
+From Verif Require Import model.Accounting proofs.AccountingFacts proofs.AccountingSaturation.
 Open Scope Q_scope.
 
 (* ------------------------------------------------------------------ battery pools *)
@@ -102,6 +102,15 @@ Proof.
   rewrite (pv_excess x D). exact (pv_alloc_sum x (proj1 D)).
 Qed.
 
+(* the excess is power that really could not be placed: with the usual non-positive lower bounds, a
+   reported excess that is negative and outside the is_close_to_zero tolerance means that every
+   usable inverter was sent exactly its lower bound (this is where the descending sort is needed) *)
+Theorem C15_pv_excess_saturated : forall x, pv_distributing x ->
+  (forall i b, In (i, Some b) (p_working x) -> b <= 0) ->
+  Qltb 0 (r_excess (pv_result x)) || close_to_zero (r_excess (pv_result x)) = false ->
+  Forall2 (fun w a => fst a = fst w /\ snd a == snd w) (pv_sorted_working x) (pv_calls x).
+Proof. exact pv_excess_saturated. Qed.
+
 (* ------------------------------------------------------------------ non-vacuity *)
 (* two inverters behind one battery + one 1:1 pair; one call times out, one is rejected *)
 Example C15_bat_nonvacuous :
@@ -138,3 +147,4 @@ Print Assumptions C15_pv_sum.
 Print Assumptions C15_pv_sets.
 Print Assumptions C15_pv_failed.
 Print Assumptions C15_pv_succeeded.
+Print Assumptions C15_pv_excess_saturated.
